@@ -70,10 +70,23 @@ Definition seg_index (seg : key) : option nat :=
 
 Definition path_eqb : path -> path -> bool := list_eqb key_eqb.
 
+(* Python's == identifies some leaves of different types: 0 == 0.0 == False,
+   1 == True == 1.0, 2 == 2.0.  Tokens 1 (False), 69 (0), 70 (0.0) / 66 (1), 67 (True),
+   68 (1.0) / 64 (2), 65 (2.0) stand for them; all other tokens are pairwise
+   unequal.  Equality only matters for set membership (vcmp); everywhere else a
+   leaf keeps its own token, so that 2.0 rewritten to 2 is a visible change. *)
+Definition leaf_cls (n : nat) : nat :=
+  match n with
+  | 69 | 70 => 1
+  | 67 | 68 => 66
+  | 65 => 64
+  | _ => n
+  end.
+
 (* ---- structural order on pure values (only used to sort/dedupe set members) *)
 Fixpoint vcmp (a b : val) {struct a} : comparison :=
   match a, b with
-  | VLeaf x, VLeaf y => Nat.compare x y
+  | VLeaf x, VLeaf y => Nat.compare (leaf_cls x) (leaf_cls y)
   | VLeaf _, VNode _ _ => Lt
   | VNode _ _, VLeaf _ => Gt
   | VNode k1 l1, VNode k2 l2 =>
